@@ -6,7 +6,7 @@
    Definitions only; proofs are in ExecInv.v.
 
    Granularity: one event for the whole fetch of a system and one for the
-   whole drop (see the note on atomicity in ExecInv.v). *)
+   whole drop; FineExec.v has the semantics with one event per borrow. *)
 From SV Require Export Dispatch.Borrow.
 
 Inductive ev := EStart (s : sys) | EEnd (s : sys).
